@@ -84,6 +84,7 @@ func (m *CPU) Run(app risc.Application) (int, error) {
 	cycle := 0
 	for {
 		cycle++
+		m.ctx.VerifTick(0, cycle)
 		log.Info(m.ctx, "Cycle %d", cycle)
 		m.decodeBus.Connect(cycle)
 		m.controlBus.Connect(cycle)
@@ -132,6 +133,7 @@ func (m *CPU) Run(app risc.Application) (int, error) {
 			cycle++
 			m.writeBus.Connect(cycle)
 			for !m.areWriteUnitsEmpty() || !m.writeBus.IsEmpty() {
+				m.ctx.VerifTick(1, cycle)
 				for _, wu := range m.writeUnits {
 					_ = wu.Cycle(wuReq{m.ctx, -1})
 				}
@@ -152,6 +154,7 @@ func (m *CPU) Run(app risc.Application) (int, error) {
 			for {
 				isEmpty := true
 				cycle++
+				m.ctx.VerifTick(2, cycle)
 				for _, eu := range m.executeUnits {
 					if !eu.isEmpty() {
 						isEmpty = false
@@ -171,6 +174,7 @@ func (m *CPU) Run(app risc.Application) (int, error) {
 				m.writeBus.Connect(cycle + 1)
 				for _, wu := range m.writeUnits {
 					for !wu.isEmpty() || !m.writeBus.IsEmpty() {
+						m.ctx.VerifTick(3, cycle)
 						_ = wu.Cycle(wuReq{m.ctx, sequenceID})
 					}
 				}
@@ -180,6 +184,7 @@ func (m *CPU) Run(app risc.Application) (int, error) {
 			}
 
 			log.Info(m.ctx, "\t️⚠️ Flush to %d", pc/4)
+			m.ctx.VerifEvent(risc.VerifKindFlush, sequenceID, pc, 0)
 			m.flush(pc)
 			cycle += latency.Flush
 			log.Info(m.ctx, "\tRegisters: %v", m.ctx.Registers)
